@@ -21,8 +21,10 @@ from core import Driver, Failure, nl, q
 
 ID = "C10"
 from genf import translate  # noqa: E402,F401  (regenerates lean/PyribsGen/Formulas.lean from the tree under check)
-PROOF_MODULES = ["PyribsProofs.C10", "PyribsGen.Formulas", "PyribsProofs.GenFCtl"]
+PROOF_MODULES = ["PyribsProofs.C10", "PyribsGen.Formulas", "PyribsProofs.GenFCtl", "PyribsGen.Control",
+                 "PyribsProofs.GenFTell"]
 THEOREMS = [
+    "Pyribs.GenFProofs.tell_trace_from_source",
     # the parent-count line of EvolutionStrategyEmitter.tell, regenerated from the source
     "Pyribs.GenFProofs.es_num_parents_matches",
     "Pyribs.GenFProofs.num_parents_rules",
